@@ -428,6 +428,9 @@ func TestSeq(t *testing.T) {
 		neverLockedProbe(t, res)
 		gcMetamorphic(t, hs, res)
 	}
+	if prop == "C10" {
+		smallDefaultLeaseProbe(t, res)
+	}
 	if prop == "C07" {
 		inertMetamorphic(t, hs, res)
 	}
@@ -755,6 +758,43 @@ func inertMetamorphic(t *testing.T, hs []*History, res *common.Result) {
 	})
 }
 
+
+// smallDefaultLeaseProbe (C10): "otherwise expires after the configured default lock timeout" for the
+// smallest configurations - a default of 0 and of 1 ns: the restored hold is gone as soon as the clock has
+// moved past it, and stays gone over a second restart. (The differential histories draw the default from
+// 0.8 s upwards: with a zero default the expiry falls on the restart instant itself, where the model
+// reports a tie and the harness does not compare.) Runs on the real server in virtual time.
+func smallDefaultLeaseProbe(t *testing.T, res *common.Result) {
+	for _, d := range []time.Duration{0, 1, time.Millisecond} {
+		d := d
+		synctest.Test(t, func(t *testing.T) {
+			cfg := impl.Cfg{Shards: 4, GcInt: time.Hour, GcIdle: time.Hour, Dlt: d, File: true}
+			im := impl.New(cfg, common.TempDir())
+			defer im.Close()
+			ops := []impl.Op{{Kind: "connect", Sid: "s1"}, {Kind: "trylock", Sid: "s1", Name: "x"}, {Kind: "restart"}, {Kind: "adv", D: int64(time.Second)},
+				{Kind: "connect", Sid: "s2"}, {Kind: "renew", Sid: "s2", Name: "x", Key: "K0", T: 5}}
+			lines := []string{}
+			var renew impl.Resp
+			for _, o := range ops {
+				r := im.Exec(o)
+				lines = append(lines, o.Line()+" -> "+im.Line(r, im.Snapshot()))
+				if o.Kind == "renew" {
+					renew = r
+				}
+			}
+			res.Count("small-default-lease-probe")
+			res.Eval(fmt.Sprintf("small-default-lease-probe|default=%v", d), true)
+			listed := len(im.LS.Locks())
+			try := im.Exec(impl.Op{Kind: "trylock", Sid: "s2", Name: "x"})
+			lines = append(lines, "trylock s2 x -> "+im.Line(try, im.Snapshot()))
+			if listed > 0 || !try.Ok {
+				res.Find(common.Finding{Kind: "violation", Property: "C10", Signature: "seq:restart:restored-hold-outlives-default-lease",
+					What: fmt.Sprintf("default lock timeout %v: 1 s after the restart the restored hold of \"x\" is still there (listed holds: %d, Renew with its key answered ok=%v err=%s, a TryLock of \"x\" answered locked=%v): a restored hold expires after the configured default lock timeout", d, listed, renew.Ok, renew.Err, try.Ok),
+					Replay: map[string]any{"cfg": cfg.Line(), "ops": lines}})
+			}
+		})
+	}
+}
 
 // neverLockedProbe (C13): a lock object that was created but never locked - its only request was a
 // blocking Lock whose caller had already gone away - is an unheld lock like any other: it is collected
